@@ -123,6 +123,12 @@ class BlockingSend(S.SeqRule):
     def on_call(self, fn, st, nid, callees, exts):
         acc, wf = st.user
         n = fn.nodes[nid]
+        if acc and any(d.static and d.file == self.root.file and any(True for _ in d.calls("xcm_tp_socket_send")) for d in callees):
+            k = "xcm_send:offered-again-after-accept"
+            if k not in self.seen:
+                self.seen.add(k)
+                self.rule.violation(k, "blocking xcm_send hands the caller's buffer to the transport again (%s) on a path where the message had already been accepted: "
+                                       "the receiver gets it twice although xcm_send reports one success" % n.get("callee"), loc=fn.loc(nid))
         if n.get("callee") == "xcm_tp_socket_send":
             return [((True, wf), S.NONNEG), ((acc, wf), S.NEG)]
         if "poll" in exts:
